@@ -98,6 +98,21 @@ def cases(tier):
                                          "mm": {"type": "int", "inputBinding": {"position": p3, "prefix": "-m"}}}), {"zz": "Z", "aa": "A", "mm": 1})
     add("order:same-position-by-name", tool({"b2": {"type": "string", "inputBinding": {}}, "a10": {"type": "string", "inputBinding": {}},
                                             "a9": {"type": "string", "inputBinding": {}}}), {"b2": "B", "a10": "A10", "a9": "A9"})
+    # positions with different digit counts and signs (numeric, not textual, order), in inputs, arguments and record fields
+    names = "abcdefghijkl"
+    add("order:twelve-positions", tool({c: {"type": "string", "inputBinding": {"position": 12 - i}} for i, c in enumerate(names)}),
+        {c: c.upper() for c in names})
+    signed = {"a": -1, "b": -2, "c": -10, "d": 0, "e": 10, "f": 9, "g": 100, "h": 2}
+    add("order:signed-positions", tool({c: {"type": "string", "inputBinding": {"position": p}} for c, p in signed.items()}),
+        {c: c.upper() for c in signed})
+    add("order:arguments-two-digit", tool({"a": {"type": "string", "inputBinding": {"position": 11}}, "b": {"type": "string", "inputBinding": {"position": 2}}},
+                                          arguments=[{"position": 10, "valueFrom": "ten"}, {"position": 9, "valueFrom": "nine"},
+                                                     {"position": 100, "valueFrom": "hundred"}, {"position": -3, "valueFrom": "minus3"},
+                                                     {"position": -20, "valueFrom": "minus20"}]), {"a": "A", "b": "B"})
+    add("order:record-fields-two-digit", tool({"v": {"type": {"type": "record", "name": "r2", "fields": {
+        "p": {"type": "string", "inputBinding": {"position": 10}}, "q": {"type": "string", "inputBinding": {"position": 9}},
+        "r": {"type": "string", "inputBinding": {"position": 2}}, "s": {"type": "string", "inputBinding": {"position": -1}}}},
+        "inputBinding": {"position": 1}}}), {"v": {"p": "P", "q": "Q", "r": "R", "s": "S"}})
     # 4. ShellCommandRequirement and shellQuote
     for sname in (STRINGS if not quick else ("space", "squote", "dollar", "semicolon", "star", "empty")):
         for sq in (True, False):
